@@ -458,8 +458,8 @@ def hostile(rng, backend):
     if T(0.2):
         opt = rng.choice(["head", "tail", "sample"])
         n = _rows(table)
-        if opt == "sample" and not neutral:
-            # pandas' sample(n > len) is an argument error of the caller
+        if opt == "sample":
+            # sample(n > len) is an argument error of the caller (not judged)
             if n >= 1:
                 call["sample"] = rng.randint(1, min(3, n))
                 tags.append("subsample")
